@@ -219,6 +219,8 @@ def check(rep, F, tier, replay=None):
             rep.violation("REGISTER-last", "TxInputsBuilder::push_input|%s" % ",".join(keeps_first), "push_input keeps an existing registration (%s) instead of replacing it: an outpoint added again with its actual value keeps the stale first amount, and collateral return + total no longer equal the collateral inputs" % ", ".join(keeps_first), {})
         elif not any(t.endswith("BTreeMap::<K, V, A>::insert") for t in tos):
             rep.lost("TxInputsBuilder::push_input no longer stores through BTreeMap::insert (re-anchor REGISTER-last)")
+    from ruleutil import value_sub_total_rule
+    value_sub_total_rule(rep, F)
     return rep.finish(
         EXPLANATION,
         ["min_ada_for_output is C07's concern", "BigNum::div_floor(100) is exact floor division (divisor constant non-zero)"],
